@@ -563,3 +563,84 @@ Print Assumptions C03_ts_vmin_vmax_real_instance.
 Print Assumptions C03_ts_vargmin_vargmax_real_instance.
 Print Assumptions C03_ts_vrank_real_instance.
 Print Assumptions C03_extreme_real_meaning.
+
+(* ---- (7) binary64: the same theorems at Coq's primitive `float`, i.e. at the very instance the correspondence run
+   evaluates and compares bit for bit with the Rust code.  The order laws hold for the non-NaN floats (strict weak
+   order: +0 and -0 are equivalent, not equal); they are derived from the standard library's specification of the
+   primitive comparisons (FloatAxioms.eqb_spec / ltb_spec / leb_spec — axioms of the Coq standard library about the
+   primitive floats, named in the trusted base).  NaN is the null of an f64 series; for Option<f64> the premise
+   valid_not_nan excludes Some(NaN) (DESIGN 5.4) and a witness shows it cannot be dropped.                        *)
+From Tevec Require Import Base.F64 Proofs.CmpOrdFloat.
+
+Theorem C03_order_laws_binary64 : OrdLaws PrimFloat.float /\ ~ OrdStrict PrimFloat.float.
+Proof. split; [exact ordlaws_F64|exact f64_not_strict]. Qed.
+
+Theorem C03_ts_vmin_binary64 :
+  forall (body : bool) (w : nat) (mp : option nat) (xs : list PrimFloat.float),
+    1 <= w -> 1 <= length xs ->
+    exists out, ts_vmin (DT := IsNoneF64) body w mp xs = Done out /\ length out = length xs /\
+      forall i, i < length xs ->
+        nth_error out i =
+        Some (let V := gvalid (win w i (map to_opt xs)) in
+              if cmp_mp mp (cmp_window w xs) <=? length V then gmin V else None).
+Proof. exact ts_vmin_f64. Qed.
+
+Theorem C03_ts_vmax_binary64 :
+  forall (body : bool) (w : nat) (mp : option nat) (xs : list PrimFloat.float),
+    1 <= w -> 1 <= length xs ->
+    exists out, ts_vmax (DT := IsNoneF64) body w mp xs = Done out /\ length out = length xs /\
+      forall i, i < length xs ->
+        nth_error out i =
+        Some (let V := gvalid (win w i (map to_opt xs)) in
+              if cmp_mp mp (cmp_window w xs) <=? length V then gmax V else None).
+Proof. exact ts_vmax_f64. Qed.
+
+Theorem C03_ts_vargmin_binary64 :
+  forall (body : bool) (w : nat) (mp : option nat) (xs : list PrimFloat.float),
+    1 <= w -> 1 <= length xs ->
+    exists out, ts_vargmin (DT := IsNoneF64) body w mp xs = Done out /\ length out = length xs /\
+      forall i, i < length xs ->
+        nth_error out i =
+        Some (let W := win w i (map to_opt xs) in
+              if cmp_mp mp (cmp_window w xs) <=? length (gvalid W) then gargmin_spec W else None).
+Proof. exact ts_vargmin_f64. Qed.
+
+Theorem C03_ts_vargmax_binary64 :
+  forall (body : bool) (w : nat) (mp : option nat) (xs : list PrimFloat.float),
+    1 <= w -> 1 <= length xs ->
+    exists out, ts_vargmax (DT := IsNoneF64) body w mp xs = Done out /\ length out = length xs /\
+      forall i, i < length xs ->
+        nth_error out i =
+        Some (let W := win w i (map to_opt xs) in
+              if cmp_mp mp (cmp_window w xs) <=? length (gvalid W) then gargmax_spec W else None).
+Proof. exact ts_vargmax_f64. Qed.
+
+Theorem C03_ts_vrank_binary64_input :
+  forall (body : bool) (w : nat) (mp : option nat) (pct rev : bool) (xs : list PrimFloat.float),
+    1 <= w -> 1 <= length xs ->
+    exists out, ts_vrank (DT := IsNoneF64) (B := XR) body w mp pct rev xs = Done out /\ length out = length xs /\
+      forall i, i < length xs ->
+        nth_error out i =
+        Some (match nth_error (map to_opt xs) i with
+              | Some (Some x) =>
+                  let V' := gvalid (seg (wstart w i) i (map to_opt xs)) in
+                  if cmp_mp mp (cmp_window w xs) <=? S (length V') then Some (g_avg_rank pct rev x V')
+                  else None
+              | _ => None
+              end).
+Proof. exact ts_vrank_f64_input. Qed.
+
+(* Option<f64>: the premise of DESIGN 5.4 is needed — on Some(NaN) elements the model of ts_vargmin underflows *)
+Theorem C03_some_nan_is_outside_the_property :
+  ts_vargmin (DT := IsNoneOptF64) true 2 (Some 0) [Some PrimFloat.nan; Some PrimFloat.nan; Some PrimFloat.nan]
+  = Panicked Underflow /\
+  ~ valid_not_nan (DT := IsNoneOptF64) [Some PrimFloat.nan; Some PrimFloat.nan; Some PrimFloat.nan].
+Proof. exact f64_some_nan_is_outside. Qed.
+
+Print Assumptions C03_order_laws_binary64.
+Print Assumptions C03_ts_vmin_binary64.
+Print Assumptions C03_ts_vmax_binary64.
+Print Assumptions C03_ts_vargmin_binary64.
+Print Assumptions C03_ts_vargmax_binary64.
+Print Assumptions C03_ts_vrank_binary64_input.
+Print Assumptions C03_some_nan_is_outside_the_property.
